@@ -90,6 +90,8 @@ def run_pelt(
 
     # Evolving set of admissible segment starts.
     cost_eval_starts = np.array(([0]), dtype=np.int64)
+    # Starts that failed the pruning inequality in the last min_segment_length - 1 steps.
+    pruned_starts_queue = []
 
     observation_indices = np.arange(2 * min_segment_length - 1, num_obs).reshape(-1, 1)
     for current_obs_ind in observation_indices:
@@ -109,9 +111,18 @@ def run_pelt(
         prev_cpts[current_obs_ind] = cost_eval_starts[argmin_candidate_cost]
 
         # Trimming the admissible starts set: (reuse the array of optimal costs)
-        cost_eval_starts = cost_eval_starts[
-            candidate_opt_costs + split_cost <= opt_cost[current_obs_ind + 1] + penalty
-        ]
+        # A start failing the inequality is dominated by a changepoint at the current end,
+        # which is only admissible for ends min_segment_length samples later, so the
+        # removal is delayed by min_segment_length - 1 steps.
+        pruned_starts_queue.append(
+            cost_eval_starts[
+                candidate_opt_costs + split_cost > opt_cost[current_obs_ind + 1] + penalty
+            ]
+        )
+        if len(pruned_starts_queue) >= min_segment_length:
+            cost_eval_starts = np.setdiff1d(
+                cost_eval_starts, pruned_starts_queue.pop(0), assume_unique=True
+            )
 
     return opt_cost[1:], get_changepoints(prev_cpts)
 
